@@ -235,6 +235,41 @@ Fixpoint spec_ok (p : prog) : bool :=
 
 Definition program_ok (p : prog) : bool := scope_ok [] p && spec_ok p.
 
+(* ---- the fragment covered by the proof of resolution_correct ---------------------------------- *)
+(* parameter lists without default values *)
+Fixpoint params_only (p : prog) : bool :=
+  match p with
+  | Done => true
+  | Decl DParam _ k => params_only k
+  | _ => false
+  end.
+
+(* Block, anonymous Func with plain parameters, Decl var / function / let-const-class, Ref;
+   arbitrary nesting and order *)
+Fixpoint core (p : prog) : bool :=
+  match p with
+  | Done => true
+  | Ref _ k => core k
+  | Decl d _ k => (match d with DVar | DFun | DLex => true | _ => false end) && core k
+  | Block b k => core b && core k
+  | Func None ps b k => params_only ps && core b && core k
+  | _ => false
+  end.
+
+(* number of identifier occurrences *)
+Fixpoint occurrences (p : prog) : nat :=
+  match p with
+  | Done => O
+  | Ref _ k | PRef _ k | Decl _ _ k => S (occurrences k)
+  | Block b k => occurrences b + occurrences k
+  | Func nm ps b k => (match nm with Some _ => 1 | None => 0 end) + occurrences ps + occurrences b + occurrences k
+  | Arrow ps b k => occurrences ps + occurrences b + occurrences k
+  | ArrowId _ b k => S (occurrences b + occurrences k)
+  | Paren hd k => occurrences hd + occurrences k
+  | For hd b k | Catch hd b k => occurrences hd + occurrences b + occurrences k
+  | Class nm ms k => (match nm with Some _ => 1 | None => 0 end) + occurrences ms + occurrences k
+  end.
+
 (* ---- comparing partitions -------------------------------------------------------------------- *)
 (* canonical numbering of a list by first occurrence: two lists induce the same partition of
    positions iff their canonical numberings are equal *)
